@@ -212,7 +212,7 @@ class Translator:
     out = [
       "(* GENERATED by /verif/bin/translate.py from /repo -- do not edit *)",
       "From Coq Require Import ZArith List Bool String.",
-      "From VF Require Import Base.Scalar Base.Vec Base.Loop Base.Kernel.",
+      "From VF Require Import Base.Scalar Base.Vec Base.Loop Base.Kernel Base.KernelRd.",
       "Import ListNotations.",
       "Local Open Scope Z_scope.",
       header,
@@ -1219,8 +1219,51 @@ class _KernelTr(_FnTr):
   def run(self, fdef):
     body = [s for s in fdef.body if not (isinstance(s, ast.Expr) and isinstance(getattr(s, "value", None), ast.Constant))]
     body = self.prepass(body, True)
+    self.maybe_written = self._prescan_written(body)
     code = "  let writes__ := (@nil (write S)) in\n" + self.block(body, dict(self.env0), lambda e, d: self.ind(d) + "writes__", 1)
     return code, ("W",)
+
+  def _prescan_written(self, body):
+    """Array parameters this kernel may write (through row views too): reads of those must see
+    the task's own earlier writes."""
+    alias = {}
+    out = set()
+
+    def root(n):
+      while isinstance(n, ast.Subscript):
+        n = n.value
+      if isinstance(n, ast.Name):
+        return alias.get(n.id, n.id)
+      return None
+
+    for _ in range(2):
+      for st in body:
+        for n in ast.walk(st):
+          if isinstance(n, ast.Assign) and len(n.targets) == 1 and isinstance(n.targets[0], ast.Name):
+            r = root(n.value) if isinstance(n.value, (ast.Subscript, ast.Name)) else None
+            if r in self.array_names:
+              alias[n.targets[0].id] = r
+          if isinstance(n, (ast.Assign, ast.AugAssign)):
+            for t in n.targets if isinstance(n, ast.Assign) else [n.target]:
+              if isinstance(t, ast.Subscript):
+                r = root(t)
+                if r in self.array_names:
+                  out.add(r)
+          if isinstance(n, ast.Call) and ast.unparse(n.func).startswith("wp.atomic_") and n.args:
+            r = root(n.args[0])
+            if r in self.array_names:
+              out.add(r)
+    return out
+
+  def e_Subscript(self, e, env):
+    code, t = super().e_Subscript(e, env)
+    if t[0] != "A" and getattr(self, "maybe_written", None):
+      r = self.root_of(e, env) if not (isinstance(e.value, ast.Attribute)) else None
+      if r is not None and r[0] in self.maybe_written:
+        root, idxcodes = r
+        f = {"S": "rdS", "Z": "rdZ", "B": "rdB", "VI": "rdZs"}.get(t[0], "rdV")
+        return f'({f} writes__ "{root}"%string [{"; ".join(idxcodes)}] {code})', t
+    return code, t
 
   # arrays written anywhere inside stmts (so that writes__ is treated as assigned)
   def _has_write(self, stmts):
@@ -1280,7 +1323,7 @@ class _KernelTr(_FnTr):
     if is_vec(t) or t[0] == "M":
       return f"(VV {code})"
     if t[0] == "VI":
-      return f"(VV (map sofZ {code}))"
+      return f"(VZs {code})"
     self.err(node, f"cannot store value of type {t}")
 
   def emit_write(self, root, idxcodes, kind, vcode, env, cont, d):
